@@ -338,41 +338,27 @@ def C02ClusterPolicyRespected : Prop :=
     (ctx : Identity), serve token raw (some u) policy up = .forwarded recv ctx → impersonationRequested raw = true →
     ∀ a ∈ requiredRecords raw, (policy a).allowed = true
 
-/-- the partial theorem: under the decidable hypothesis that the required records are valid UTF-8 (`recordsCarried`) -/
-theorem c02_cluster_policy_respected_partial (token : Str) (raw : List (Str × Str)) (u : Identity)
-    (policy : Attrs → Decision) (up : Bool) (recv : Headers) (ctx : Identity)
-    (h : serve token raw (some u) policy up = .forwarded recv ctx) (hr : impersonationRequested raw = true)
-    (hc : recordsCarried raw = true) : ∀ a ∈ requiredRecords raw, (policy a).allowed = true := by
-  intro a ha
+/-- … proved since /repo 4b75a77 (an impersonation with a name that is not valid UTF-8 is malformed: 500, not forwarded; the
+    records of a well-formed one are exactly what the SubjectAccessReview carries), for EVERY requestor and every policy -/
+theorem c02_cluster_policy_respected : C02ClusterPolicyRespected := by
+  intro token raw u policy up recv ctx h hr a ha
   have := c02_forwarded_requires_cluster token raw u policy up recv ctx h hr a ha
-  simp only [recordsCarried, List.all_eq_true, beq_iff_eq] at hc
-  rwa [hc a ha] at this
+  rcases c02_forwarded_identity token raw u (wiredAuthorizer u policy) up recv ctx h with ⟨h', _⟩ | ⟨_, hm, _, _⟩
+  · rw [hr] at h'; cases h'
+  · have hc := wellformed_recordsCarried raw hr hm
+    simp only [recordsCarried, List.all_eq_true, beq_iff_eq] at hc
+    rwa [hc a ha] at this
 
-/-- `Impersonate-User: \xff\xfe` -/
-def exRawNotUTF8 : List (Str × Str) := [([73, 109, 112, 101, 114, 115, 111, 110, 97, 116, 101, 45, 85, 115, 101, 114], [255, 254])]
-/-- a cluster that refuses to let anybody act as the user `\xff\xfe` and allows everything else -/
-def exPolicyNotUTF8 : Attrs → Decision := fun a => if a.name = [255, 254] then .deny else .allow
-
-/-- refutation by the witness of `findings/C02-record-not-utf8`: the cluster is asked about U+FFFD U+FFFD, allows, and the
-    upstream is told to act as `\xff\xfe` -/
-theorem c02_cluster_policy_respected_false : ¬ C02ClusterPolicyRespected := by
-  intro h
-  have hs : serve exToken exRawNotUTF8 (some exAlice) exPolicyNotUTF8 false =
-      .forwarded (recvOf (serve exToken exRawNotUTF8 (some exAlice) exPolicyNotUTF8 false))
-        ⟨[255, 254], [[115, 121, 115, 116, 101, 109, 58, 97, 117, 116, 104, 101, 110, 116, 105, 99, 97, 116, 101, 100]], []⟩ := by decide +kernel
-  have := h _ _ _ _ _ _ _ hs (by decide +kernel) ⟨[], resUsers, [], [], [255, 254]⟩ (by decide +kernel)
-  revert this
-  decide +kernel
-
-/-- What the cluster's policy refuses (exact records, valid UTF-8) is answered by the gateway and never forwarded — for
-    every requestor. -/
+/-- What the cluster's policy refuses (asked about the exact required records) is answered by the gateway and never
+    forwarded — for every requestor; so is every malformed impersonation (incl. names that are not valid UTF-8). -/
 theorem c02_cluster_refusal_not_forwarded (token : Str) (raw : List (Str × Str)) (auth : Option Identity)
-    (policy : Attrs → Decision) (up : Bool) (s : Nat) (h : expectedFor raw auth policy = .answered s)
-    (hc : recordsCarried raw = true) : ∀ recv ctx, serve token raw auth policy up ≠ .forwarded recv ctx := by
-  rcases expectedFor_cases raw auth with ⟨e, he⟩ | ⟨u, rfl, _, _, _, he⟩
+    (policy : Attrs → Decision) (up : Bool) (s : Nat) (h : expectedFor raw auth policy = .answered s) :
+    ∀ recv ctx, serve token raw auth policy up ≠ .forwarded recv ctx := by
+  rcases expectedFor_cases raw auth with ⟨e, he⟩ | ⟨u, rfl, _, hr, hm, he⟩
   · have : expectedFor raw auth (wiredFor auth policy) = .answered s := by rw [he, ← he policy, h]
     exact c02_denied_or_malformed_never_reaches_upstream token raw auth (wiredFor auth policy) up s this
-  · rw [he policy] at h
+  · have hc := wellformed_recordsCarried raw hr hm
+    rw [he policy] at h
     have hp : allAllowed policy raw = false := by
       cases hx : allAllowed policy raw with
       | false => rfl
@@ -385,12 +371,11 @@ theorem c02_cluster_refusal_not_forwarded (token : Str) (raw : List (Str × Str)
       rw [he]; simp [wiredFor, hw]
     exact c02_denied_or_malformed_never_reaches_upstream token raw (some u) (wiredFor (some u) policy) up 403 this
 
-/-- The judge the harness applies (against the cluster's own answers on the exact records) reports nothing on the model's
-    output but the recorded `recordNotUTF8` … -/
+/-- For EVERY request the judge the harness applies (against the cluster's own answers on the exact records, whoever the
+    requestor is) accepts the model's output. -/
 theorem c02_judge_cluster_model (token : Str) (raw : List (Str × Str)) (auth : Option Identity)
     (policy : Attrs → Decision) (up : Bool) :
-    ∀ c ∈ judgeCluster token up raw auth policy (upstreamOf (serve token raw auth policy up)), c = Class.recordNotUTF8 := by
-  intro c hc
+    judgeCluster token up raw auth policy (upstreamOf (serve token raw auth policy up)) = [] := by
   cases hs : serve token raw auth policy up with
   | forwarded recv ctx =>
     have he := c02_forwarded_only_as_expected token raw auth (wiredFor auth policy) up recv ctx hs
@@ -398,67 +383,24 @@ theorem c02_judge_cluster_model (token : Str) (raw : List (Str × Str)) (auth : 
       have := c02_judge_model token raw auth (wiredFor auth policy) up
       have hs' : serveWith token raw auth (wiredFor auth policy) up = .forwarded recv ctx := hs
       simpa [hs', upstreamOf, he, judge] using this
-    rw [hs] at hc
-    rcases expectedFor_cases raw auth with ⟨e, hE⟩ | ⟨u, rfl, _, _, _, hE⟩
-    · rw [hE] at he
-      subst he
-      simp only [judgeCluster, hE, upstreamOf, List.flatMap_cons, List.flatMap_nil, List.append_nil, hj] at hc
-      simp at hc
-    · rw [hE] at he
-      have hw : allAllowed (wiredAuthorizer u policy) raw = true := by
-        cases hx : allAllowed (wiredFor (some u) policy) raw with
-        | false => rw [hx] at he; cases he
-        | true => exact hx
-      have hctx : ctx = requestedIdentity raw := by
-        have hw' : allAllowed (wiredFor (some u) policy) raw = true := hw
-        rw [hw'] at he; simp at he; exact he.symm
-      have hjs := allAllowed_wired hw
-      subst hctx
-      simp only [judgeCluster, hE, hjs, if_true, upstreamOf] at hc
-      cases hp : allAllowed policy raw with
-      | true => simp [hp, hj] at hc
-      | false => simpa [hp, hj] using hc
-  | badRequest | unauthorized | internalError | forbidden | transportRefused | valueRefused | upstreamRefused =>
-    rw [hs] at hc
-    simp only [judgeCluster, upstreamOf] at hc
-    split at hc <;> simp at hc
-
-/-- … and nothing at all when the required records are valid UTF-8. -/
-theorem c02_judge_cluster_model_exact (token : Str) (raw : List (Str × Str)) (auth : Option Identity)
-    (policy : Attrs → Decision) (up : Bool) (hcar : recordsCarried raw = true) :
-    judgeCluster token up raw auth policy (upstreamOf (serve token raw auth policy up)) = [] := by
-  cases hs : serve token raw auth policy up with
-  | forwarded recv ctx =>
-    have hall := c02_judge_cluster_model token raw auth policy up
-    rw [hs] at hall
-    cases he : expectedFor raw auth policy with
-    | answered s => exact absurd hs (c02_cluster_refusal_not_forwarded token raw auth policy up s he hcar recv ctx)
+    cases hp : expectedFor raw auth policy with
+    | answered s => exact absurd hs (c02_cluster_refusal_not_forwarded token raw auth policy up s hp recv ctx)
     | forward id =>
-      simp only [judgeCluster, he, upstreamOf, List.flatMap_cons, List.flatMap_nil, List.append_nil] at hall ⊢
-      cases hj : judgeForward token up id recv with
-      | nil => rfl
-      | cons c cs =>
-        -- every reported class would have to be `recordNotUTF8`, which `judgeForward` never reports
-        have hc := hall c (by simp [hj])
-        have : c ∈ judgeForward token up id recv := by simp [hj]
-        subst hc
-        simp only [judgeForward] at this
-        simp only [List.mem_append] at this
-        rcases this with (h1 | h1) | h1
-        · split at h1 <;> simp at h1
-        · split at h1
-          · simp at h1
-          · split at h1 <;> simp at h1
-        · split at h1
-          · simp at h1
-          · split at h1
-            · simp at h1
-            · split at h1
-              · simp at h1
-              · split at h1 <;> simp at h1
+      have hid : id = ctx := by
+        rcases expectedFor_cases raw auth with ⟨e, hE⟩ | ⟨u, rfl, _, _, _, hE⟩
+        · rw [hE] at he hp; rw [he] at hp; cases hp; rfl
+        · rw [hE] at he hp
+          split at he <;> split at hp <;> simp_all
+      subst hid
+      simp [judgeCluster, hp, upstreamOf, hj]
   | badRequest | unauthorized | internalError | forbidden | transportRefused | valueRefused | upstreamRefused =>
     simp only [judgeCluster, upstreamOf]
     split <;> simp
+
+/-- the witness of the repaired defect C02-record-not-utf8 is malformed now: `Impersonate-User: \xff\xfe` is answered 500 -/
+example : serve exToken [([73, 109, 112, 101, 114, 115, 111, 110, 97, 116, 101, 45, 85, 115, 101, 114], [255, 254])] (some exAlice)
+      (fun a => if a.name = [255, 254] then .deny else .allow) false = .internalError ∧
+    expectedFor [([73, 109, 112, 101, 114, 115, 111, 110, 97, 116, 101, 45, 85, 115, 101, 114], [255, 254])] (some exAlice) (fun _ => .allow) = .answered 500 := by decide +kernel
 
 /-- a requestor in `system:masters` named `system:admin` is treated like everybody else: the cluster denies acting as
     `bob`, the gateway answers 403 -/
@@ -493,6 +435,11 @@ theorem c02_authorizer_wiring :
     KG.Gen.C02.proxyAuthorizationApply = "o.Authorization.ApplyTo(&recommendedConfig.Config, clusterController)" ∧
     KG.Gen.C02.chainClusterManager = "clusterController" := by
   decide
+
+/-- `buildImpersonationRequests` requires exactly the three string fields of every reference to be valid UTF-8 (regenerated):
+    what `refUTF8` checks (`Namespace` and `Name` of a service account, `Name` of a user or group, `FieldPath` = key and `Name` =
+    value of an extra) -/
+theorem c02_utf8_fields : KG.Gen.C02.impersonationUTF8Fields = ["FieldPath", "Name", "Namespace"] := by decide
 
 /-! ## non-vacuity (byte strings spelled out; evaluated by the kernel) -/
 
